@@ -449,3 +449,21 @@ def count_ops(pool: list) -> list:
             res.append(row)
         return res
     return in_child(fn)
+
+
+def count_points(pool: list) -> list:
+    """Switch points of one warm write / read call of each class (both threads' calls together, halved):
+    used to sweep a preemption over the whole of a warm call."""
+    def fn():
+        res = []
+        for ci in range(len(pool)):
+            o: list = []
+            run_program(0, [("w", ci, 0, 0), ("w", ci, 1, 0), ("r", ci, 0, 0), ("r", ci, 1, 0)], pool, lambda: None, o)
+            row = []
+            for kind in ("w", "r"):
+                r = run_threads([[(kind, ci, 0, 0)], [(kind, ci, 1, 0)]], [10**9], pool)
+                row.append(r["points"] // 2 + 3)
+            res.append(row)
+        return res
+    return in_child(fn, timeout=300.0)
+
